@@ -39,7 +39,18 @@ const (
 	maxFactsPerPredicate = 1 << 32
 	// Limit on the number of arguments a predicate can take.
 	maxArity = 1 << 10
+	// Limit on the length of a line, i.e. of one serialized constant.
+	maxLineLength = 1 << 30
 )
+
+// newScanner returns a line scanner whose buffer grows up to maxLineLength.
+// The default limit of bufio.Scanner (64 KiB) is smaller than the serialized
+// form of, e.g., a long string or a list with a few thousand elements.
+func newScanner(r io.Reader) *bufio.Scanner {
+	scanner := bufio.NewScanner(r)
+	scanner.Buffer(make([]byte, 0, bufio.MaxScanTokenSize), maxLineLength)
+	return scanner
+}
 
 // SimpleColumn is a file format to store a knowledge base.
 //
@@ -154,7 +165,7 @@ func (s *SimpleColumnStore) GetFacts(query ast.Atom, cb func(ast.Atom) error) er
 	}
 	defer f.Close()
 
-	scanner := bufio.NewScanner(f)
+	scanner := newScanner(f)
 	for i := 0; i < toSkip; i++ {
 		if ok := scanner.Scan(); !ok {
 			return ErrCouldNotRead
@@ -236,7 +247,7 @@ func NewSimpleColumnStore(input func() (io.ReadCloser, error)) (*SimpleColumnSto
 		return nil, err
 	}
 	defer f.Close()
-	scanner := bufio.NewScanner(f)
+	scanner := newScanner(f)
 	preds, predFactCount, err := readHeader(scanner)
 	if err != nil {
 		return nil, err
@@ -445,7 +456,7 @@ func readHeader(scanner *bufio.Scanner) ([]ast.PredicateSym, []int, error) {
 
 // ReadInto reads contents in simplecolumn format into a fact store.
 func (sc SimpleColumn) ReadInto(r io.Reader, store FactStore) error {
-	scanner := bufio.NewScanner(r)
+	scanner := newScanner(r)
 
 	preds, predNumFacts, err := readHeader(scanner)
 	if err != nil {
